@@ -1,9 +1,11 @@
 package mediumsim
 
 import (
+	"archive/tar"
 	"archive/zip"
 	"bytes"
 	"compress/flate"
+	"compress/gzip"
 	"encoding/binary"
 	"encoding/json"
 	"fmt"
@@ -13,6 +15,7 @@ import (
 	"os"
 	"path/filepath"
 	"sort"
+	"strings"
 	"time"
 
 	"github.com/advancedclimatesystems/gonnx/onnx"
@@ -451,6 +454,8 @@ func (g *gen) families18() {
 	}
 	// adversarial extents: element counts / byte sizes that wrap around in 64-bit arithmetic
 	g.overflowFamily()
+	// inputs that are (or pretend to be) other container and serialisation formats
+	g.foreignFormatFamily(small)
 	// parts of the ONNX schema the pinned tree ignores (sparse initializers, functions, training info, graph
 	// attributes ...): a tree that starts reading them must not start panicking on them
 	g.sparseFamily()
@@ -527,6 +532,13 @@ func unknownNames(r *rng.R) []string {
 		"MatMulInteger", "QLinearConv", "ConvTranspose", "Softplus", "Softsign", "HardSigmoid", "ai.onnx.Relu", "Relu_13", "Relu:13", "ＲeＬu", "Ｒelu", "Κonv", "Add\n", "\tAdd", "Add,Mul",
 		"abs", "ABS", "Abs1", "matmul", "Matmul", "MATMUL", "gemm", "GEMM", "softmax", "SoftMax", "logsoftmax", "LogSoftMax", "argmax", "Argmax", "reducemax", "Reducemax", "prelu", "PReLU", "Prelu",
 		"constant", "ConstantOfshape", "constantofshape", "linearregressor", "Linearregressor", "scaler", "SCALER", "greaterorequal", "GreaterOrequal", "lessorequal", "Lessorequal"}
+	// names that CONTAIN an implemented name: namespaces, domains, version suffixes, paths
+	for _, n := range []string{"Relu", "Add", "Gemm", "Conv", "MatMul", "Tanh", "Abs", "LSTM"} {
+		for _, f := range []string{"onnx::%s", "aten::%s", "::%s", "a::b::%s", "ai.onnx::%s", "%s::", "%s::v13", "ai.onnx.%s", "ai.onnx.ml.%s", "com.microsoft.%s", "com.microsoft::%s",
+			"/%s", "%s/", "domain/%s", "%s@13", "%s.13", "%s-13", "%s_v13", "%s:0", "%s;", "[%s]", "(%s)", "%s()", "\"%s\"", "op:%s", "%s\n", "%s\x00x", "x\x00%s", "%s%s", "Fused%s", "%sV2", "Q%s", "Quantized%s"} {
+			out = append(out, strings.ReplaceAll(f, "%s", n))
+		}
+	}
 	for _, n := range pinnedOps {
 		b := []byte(n)
 		for k := 0; k < 3; k++ {
@@ -984,5 +996,61 @@ func (g *gen) randomFamily(small, big []base) {
 		}
 		g.idx++
 		g.run(c, changed)
+	}
+}
+
+// foreignFormatFamily: model bytes wrapped in, or replaced by, other formats a loader might be taught to sniff
+// (gzip, tar, tar.gz, zip given as plain bytes, text formats), complete, truncated and damaged. The pinned tree
+// refuses all of them with a protobuf error; none may panic.
+func (g *gen) foreignFormatFamily(bases []base) {
+	gz := func(b []byte) []byte {
+		var buf bytes.Buffer
+		w := gzip.NewWriter(&buf)
+		w.Write(b)
+		w.Close()
+		return buf.Bytes()
+	}
+	tarOf := func(name string, b []byte, extra bool) []byte {
+		var buf bytes.Buffer
+		tw := tar.NewWriter(&buf)
+		if extra {
+			tw.WriteHeader(&tar.Header{Name: "README.txt", Mode: 0o644, Size: 5})
+			tw.Write([]byte("hello"))
+			tw.WriteHeader(&tar.Header{Name: "dir/", Typeflag: tar.TypeDir, Mode: 0o755})
+		}
+		tw.WriteHeader(&tar.Header{Name: name, Mode: 0o644, Size: int64(len(b))})
+		tw.Write(b)
+		tw.Close()
+		return buf.Bytes()
+	}
+	emit := func(label string, data []byte) {
+		cuts := []int{len(data), len(data) / 4, len(data) / 2, len(data) * 3 / 4, len(data) - 1, 10, 18, 512, 513, 1024}
+		for _, c := range cuts {
+			if c < 0 || c > len(data) {
+				continue
+			}
+			g.rawCase("foreign-format", fmt.Sprintf("%s cut at %d of %d", label, c, len(data)), data[:c], "bytes", true, "")
+		}
+		for k := 0; k < 24 && k*7 < len(data); k++ {
+			d := append([]byte{}, data...)
+			d[k*7] ^= 1 << uint(k%8)
+			g.rawCase("foreign-format", fmt.Sprintf("%s bit flip at %d", label, k*7), d, "bytes", true, "")
+		}
+	}
+	for bi, b := range bases {
+		if bi > 3 {
+			break
+		}
+		emit(b.name+" gzip", gz(b.data))
+		emit(b.name+" tar", tarOf("model.onnx", b.data, false))
+		emit(b.name+" tar.gz", gz(tarOf("model.onnx", b.data, false)))
+		emit(b.name+" tar.gz with other entries", gz(tarOf("dir/model.onnx", b.data, true)))
+		emit(b.name+" tar.gz without onnx entry", gz(tarOf("weights.bin", b.data, true)))
+		emit(b.name+" gzip twice", gz(gz(b.data)))
+		emit(b.name+" zip as plain bytes", MakeZip(b.data, true))
+	}
+	for _, lit := range []string{"\x1f\x8b", "\x1f\x8b\x08", "\x1f\x8b\x08\x00\x00\x00\x00\x00\x00\xff", "PK\x03\x04", "PK\x05\x06" + strings.Repeat("\x00", 18), "BZh91AY&SY", "\xfd7zXZ\x00", "\x28\xb5\x2f\xfd", "\x89HDF\r\n\x1a\n",
+		"\x93NUMPY\x01\x00", "\x80\x04\x95", "{\"graph\": {}}", "ir_version: 7\ngraph { }", "<?xml version=\"1.0\"?>", "ustar\x0000", strings.Repeat("\x00", 512), strings.Repeat("\x00", 1024), "\xef\xbb\xbf", "ONNX", "\x08\x07\x12"} {
+		g.rawCase("foreign-format", fmt.Sprintf("magic %q", lit), []byte(lit), "bytes", true, "")
 	}
 }
